@@ -45,3 +45,37 @@ def nontext_nodes(items):
         elif k == 'G{' and 'a' not in d['path'][-2:-1]:
             out.append((d['s'], gram.text_of(d['n'])))
     return out
+
+
+def observe(soup):
+    """Look at every documented view of the tree once (text, views, searches, per-node text) and throw the results
+    away.  Used by the edit checks to explore the order 'look, then edit' next to 'edit at once': whatever the
+    library computes lazily has been computed by then, and must not survive the edit."""
+    T = types()
+    str(soup)
+    repr(soup)
+    soup.text
+    soup.contents
+    soup.children
+    names = set()
+    for d in soup.descendants:
+        if isinstance(d, T['TexNode']):
+            str(d)
+            d.contents
+            d.children
+            d.text
+            list(d.args)
+            str(d.args)
+            names.add(str(d.name))
+            try:
+                d.string
+            except Exception:      # noqa: .string is not defined everywhere
+                pass
+    for nm in sorted(names):
+        soup.find(nm)
+        soup.find_all(nm)
+        soup.count(nm)
+        try:
+            getattr(soup, nm)
+        except Exception:          # noqa
+            pass
